@@ -8,7 +8,7 @@
    -> value-info -> attributes -> node -> graph/scoping -> function -> model. *)
 From Coq Require Import ZArith NArith List Bool.
 From IRV Require Import Base.Exn Gen.C02Gen C02.Model C02.Model2 C02.Norm C02.Proofs1 C02.Proofs2 C02.Proofs3.
-From IRV Require Import C02.ProofsFuel C02.ProofsDepth C02.ProofsG14 C02.ProofsG17 C02.ProofsG18 C02.ProofsG19 C02.ProofsG20.
+From IRV Require Import C02.ProofsFuel C02.ProofsDepth C02.ProofsG14 C02.ProofsG17 C02.ProofsG18 C02.ProofsG19 C02.ProofsG20 C02.ProofsG21.
 From Coq Require Import Lia PeanoNat.
 Import ListNotations.
 Open Scope Z_scope.
@@ -213,6 +213,40 @@ Theorem C02_function_entry_roundtrip :
   exists q, roundtrip_function f = Ok q /\ norm_function q = norm_function f.
 Proof. exact function_entry_roundtrip. Qed.
 Print Assumptions C02_function_entry_roundtrip.
+
+(* IR < 10, function level: the values of a model-local function typed through main-graph value-info entries
+   named "{domain}::{function}/{value}" (the format the serializer writes below IR 10; matched by prefix against
+   the function, 348a4f1).  deserialize_function, then the experimental lookup, then serialize_function_into
+   without value_info: the function proto round-trips and exactly the informative entries are written back for
+   the main graph, under their qualified names, each once, in the order of the function's values.
+   (Model level: wf_model still excludes this format below IR 10, so C02_roundtrip does not cover it; the
+   model-vs-implementation stream "experimental-function-value-info-ir<10" and the oracle do.) *)
+Theorem C02_function_experimental_ir9 :
+  forall (f : FunctionP) allow_dev irvo (n fuel' : nat) (vinfos : list VInfoP),
+  wf_function allow_dev false f = true ->
+  (fdepth f <= S n)%nat -> (S n <= fuel')%nat -> irv_allows allow_dev irvo ->
+  NoDup (map fst (exp_pairs vinfos f)) ->
+  (forall k, In k (map fst (exp_pairs vinfos f)) -> k <> []) ->
+  (forall kv, In kv (exp_pairs vinfos f) -> wf_vinfo (snd kv) = true) ->
+  exists fn fn' q extra,
+    deser_function (S n) f = Ok fn
+    /\ apply_exp_fn vinfos fn = Ok fn'
+    /\ ser_function_gen fuel' false irvo fn' = Ok (q, extra)
+    /\ norm_function q = norm_function f
+    /\ map norm_vinfo extra
+       = concat (map (fun k => match lookup k (exp_pairs vinfos f) with
+                               | Some e => filter has_info [norm_vinfo (mkVInfoP (Some (pprefix f ++ k)) (vi_type e) (vi_doc e) (vi_meta e))]
+                               | None => []
+                               end) (f_inputs f ++ node_out_names (f_nodes f))).
+Proof. exact function_experimental_ir9. Qed.
+Print Assumptions C02_function_experimental_ir9.
+
+Example C02_experimental_ir9_example :   (* function "Block" in the default domain, entry "::Block/a" *)
+  let f := mkFunctionP (Some [66%N]) None None None [[97%N]] [[98%N]] [] []
+             [mkNodeP [[97%N]] [[98%N]] None (Some [73%N]) None None None [] [] []] [] [] [] in
+  let vi := mkVInfoP (Some [58%N; 58%N; 66%N; 47%N; 97%N]) (TTensor (Some 1) None None) None [] in
+  wf_function true false f = true /\ exp_pairs [vi] f = [([97%N], vi)] /\ wf_vinfo vi = true.
+Proof. vm_compute. repeat split. Qed.
 
 (* Stage 8 = the principal theorem.  Models: IR version 3..13, opset imports (a dict), producer fields,
    model_version, doc string, metadata, the main graph, the functions table, device configurations at
